@@ -16,6 +16,95 @@ use crate::l3_div_vt::*;
 use crate::l4_int::*;
 verus! {
 
+// ---- mathematical quotients
+
+/// truncating quotient (rounds toward zero): sign(n)·sign(d)·(|n| div |d|)
+pub open spec fn trunc_q(n: int, d: int) -> int {
+    if (n >= 0) == (d > 0) { abs_i(n) / abs_i(d) } else { -(abs_i(n) / abs_i(d)) }
+}
+/// flooring quotient ⌊n/d⌋ (Euclidean division by the positive one of d, -d)
+pub open spec fn floor_q(n: int, d: int) -> int { if d > 0 { n / d } else { (-n) / (-d) } }
+/// remainder of the truncating division
+pub open spec fn true_rem(n: int, d: int) -> int { n - trunc_q(n, d) * d }
+
+/// magnitudes (q, r) of |n| = q·|d| + r  ->  truncating quotient / remainder of n, d
+pub proof fn lemma_trunc(n: int, d: int, q: int, r: int)
+    requires d != 0, q * abs_i(d) + r == abs_i(n), 0 <= r < abs_i(d), q >= 0
+    ensures abs_i(n) / abs_i(d) == q, abs_i(n) % abs_i(d) == r,
+        trunc_q(n, d) == (if (n < 0) != (d < 0) { -q } else { q }),
+        n == trunc_q(n, d) * d + (if n < 0 { -r } else { r }),
+        true_rem(n, d) == (if n < 0 { -r } else { r })
+{
+    let na = abs_i(n); let da = abs_i(d);
+    assert(na == da * q + r) by (nonlinear_arith) requires q * da + r == na;
+    lemma_fundamental_div_mod_converse(na, da, q, r);
+    assert(q * d == -(q * (-d))) by (nonlinear_arith);
+    assert((-q) * d == -(q * d)) by (nonlinear_arith);
+    assert((-q) * (-d) == q * d) by (nonlinear_arith);
+}
+
+/// floor adjustment: when the signs oppose and r != 0 the quotient magnitude grows by one and the remainder becomes |d| - r
+pub proof fn lemma_floor(n: int, d: int, q: int, r: int)
+    requires d != 0, q * abs_i(d) + r == abs_i(n), 0 <= r < abs_i(d), q >= 0
+    ensures ({
+        let da = abs_i(d);
+        let opp = (n < 0) != (d < 0); let md = opp && r != 0;
+        let qm = if md { q + 1 } else { q }; let rm = if md { da - r } else { r };
+        let qs = if opp { -qm } else { qm }; let rs = if d < 0 { -rm } else { rm };
+        &&& qs == floor_q(n, d) &&& n == qs * d + rs &&& 0 <= rm < da &&& (rm == 0) == (r == 0) })
+{
+    lemma_trunc(n, d, q, r);
+    let da = abs_i(d);
+    let opp = (n < 0) != (d < 0); let md = opp && r != 0;
+    let qm = if md { q + 1 } else { q }; let rm = if md { da - r } else { r };
+    let qs = if opp { -qm } else { qm }; let rs = if d < 0 { -rm } else { rm };
+    assert((q + 1) * da == q * da + da) by (nonlinear_arith);
+    assert(q * d == -(q * (-d))) by (nonlinear_arith);
+    assert((-q) * d == -(q * d)) by (nonlinear_arith);
+    assert((-q) * (-d) == q * d) by (nonlinear_arith);
+    assert((-(q + 1)) * d == -(q * d) - d) by (nonlinear_arith);
+    assert((-(q + 1)) * (-d) == q * d + d) by (nonlinear_arith);
+    assert((q + 1) * d == q * d + d) by (nonlinear_arith);
+    assert((q + 1) * (-d) == -(q * d) - d) by (nonlinear_arith);
+    assert(n == qs * d + rs);
+    if d > 0 {
+        assert(n == d * qs + rs) by (nonlinear_arith) requires n == qs * d + rs;
+        lemma_fundamental_div_mod_converse(n, d, qs, rs);
+    } else {
+        assert(-n == (-d) * qs + (-rs)) by (nonlinear_arith) requires n == qs * d + rs;
+        lemma_fundamental_div_mod_converse(-n, -d, qs, -rs);
+    }
+}
+
+/// size of the quotient magnitude: it reaches h = |MIN| only for MIN / ±1
+pub proof fn lemma_qbound(n: int, d: int, q: int, r: int, h: int)
+    requires d != 0, h >= 1, -h <= n < h, q * abs_i(d) + r == abs_i(n), 0 <= r < abs_i(d), q >= 0
+    ensures q <= abs_i(n), q <= h, (q == h) == (n == -h && abs_i(d) == 1), r <= abs_i(n)
+{
+    let na = abs_i(n); let da = abs_i(d);
+    assert(q <= na && r <= na) by (nonlinear_arith) requires q * da + r == na, da >= 1, r >= 0, q >= 0;
+    if q == h { assert(da == 1) by (nonlinear_arith) requires q * da + r == na, na <= q, da >= 1, r >= 0, q >= 1; }
+    if n == -h && da == 1 { assert(q == h) by (nonlinear_arith) requires q * da + r == na, da == 1, 0 <= r < da, na == h; }
+}
+
+pub proof fn lemma_floor_qbound(n: int, d: int, q: int, r: int, h: int)
+    requires d != 0, h >= 2, -h <= n < h, q * abs_i(d) + r == abs_i(n), 0 <= r < abs_i(d), q >= 0
+    ensures ({
+        let opp = (n < 0) != (d < 0); let md = opp && r != 0;
+        let qm = if md { q + 1 } else { q };
+        &&& qm <= h &&& q + 1 <= h + 1 &&& (qm == h) == (n == -h && abs_i(d) == 1) &&& r <= abs_i(n) })
+{
+    lemma_qbound(n, d, q, r, h);
+    let na = abs_i(n); let da = abs_i(d);
+    if r != 0 {
+        assert(q < na) by (nonlinear_arith) requires q * da + r == na, da >= 1, r >= 1, q >= 0;
+        if q + 1 == h {
+            assert(q * da >= q * 2) by (nonlinear_arith) requires da >= 2, q >= 0;
+            assert(false);
+        }
+    }
+}
+
 //@@ subst \b(Self|Uint|Int)::(ZERO|ONE|MINUS_ONE|MIN|MAX|SIGN_MASK|FULL_MASK|BITS|LIMBS|LOG2_BITS)\b(?!\() => \1::\2()
 //@@ subst \b(Uint|Int)::<(\w+)>::(ZERO|ONE|MAX|MIN|BITS)\b(?!\() => \1::<\2>::\3()
 //@@ fn src/int/div.rs | impl<const LIMBS: usize> Int<LIMBS> | div_rem_base | body | props C14 C11
@@ -388,7 +477,13 @@ pub const fn div_rem_uint_vartime<const RHS_LIMBS: usize>(
         assert(rt == (if n < 0 { -r0 } else { r0 }));
         lemma_iv_bounds(r0, RHS_LIMBS as nat);
         lemma_ineg(r0, (bp(RHS_LIMBS as nat) - r0) % bp(RHS_LIMBS as nat), RHS_LIMBS as nat);
-        if n < 0 { if iv_of(r0, RHS_LIMBS as nat) != r0 { lemma_wrap_shift(-r0, 1, RHS_LIMBS as nat); } }
+        let xiv = iv_of(r0, RHS_LIMBS as nat); let wr = bp(RHS_LIMBS as nat);
+    if n < 0 {
+        if xiv != r0 { assert(xiv == r0 - wr); lemma_wrap_shift(-r0, 1, RHS_LIMBS as nat); assert(-r0 + 1 * wr == -xiv); }
+        assert(wrap_i(-xiv, RHS_LIMBS as nat) == wrap_i(rt, RHS_LIMBS as nat));
+    } else {
+        assert(wrap_i(rt, RHS_LIMBS as nat) == xiv);
+    }
         if in_range(rt, RHS_LIMBS as nat) { lemma_wrap_id(rt, RHS_LIMBS as nat); }
         if RHS_LIMBS >= LIMBS { lemma_bp_mono(LIMBS as nat, RHS_LIMBS as nat); }
     }
